@@ -226,7 +226,28 @@ class NoElse(ast.NodeTransformer):
         return node
 
 
-TRANSFORMS = {'unparse': None, 'logging': Logging, 'logmsg': LogMsg, 'ifelse': IfElse, 'augassign': AugAssign, 'yoda': Yoda, 'rename': Rename, 'noelse': NoElse}
+class TempReturn(ast.NodeTransformer):
+    """return <call or binop>  ->  result_ = <expr>; return result_"""
+    def _flat(self, body):
+        out = []
+        for st in body:
+            if isinstance(st, ast.Return) and isinstance(st.value, (ast.Call, ast.BinOp, ast.Subscript)):
+                out.append(ast.Assign([ast.Name('result_', ast.Store())], st.value, lineno=st.lineno))
+                out.append(ast.Return(ast.Name('result_', ast.Load())))
+            else:
+                out.append(st)
+        return out
+
+    def generic_visit(self, node):
+        super().generic_visit(node)
+        for fld in ('body', 'orelse', 'finalbody'):
+            b = getattr(node, fld, None)
+            if isinstance(b, list) and b and isinstance(b[0], ast.stmt):
+                setattr(node, fld, self._flat(b))
+        return node
+
+
+TRANSFORMS = {'unparse': None, 'logging': Logging, 'logmsg': LogMsg, 'ifelse': IfElse, 'augassign': AugAssign, 'yoda': Yoda, 'rename': Rename, 'noelse': NoElse, 'tempreturn': TempReturn}
 
 
 def main(argv):
